@@ -174,6 +174,7 @@ func runC17(c *Ctx) {
 
 	ruleGates(c, p, pairs, "C17.gates")
 	ruleBitFlags(c, p, pairs, "C17.flags")
+	ruleThresholds(c, p, "C17.thresholds")
 
 	// ---- C17.fieldorder
 	rule = "C17.fieldorder"
@@ -782,4 +783,76 @@ func ruleBitFlags(c *Ctx, p *core.Program, pairs []msgPair, rule string) {
 		}
 	}
 	c.R.Floor(rule, cfg, n, 1)
+}
+
+// protocolDefines: revision at which each feature appears (ClickHouse src/Core/ProtocolDefines.h,
+// the source cited in proto/feature.go).
+var protocolDefines = map[string]int64{
+	"FeatureTempTables":                  50264,
+	"FeatureBlockInfo":                   51903,
+	"FeatureTimezone":                    54058,
+	"FeatureQuotaKeyInClientInfo":        54060,
+	"FeatureDisplayName":                 54372,
+	"FeatureVersionPatch":                54401,
+	"FeatureServerLogs":                  54406,
+	"FeatureColumnDefaultsMetadata":      54410,
+	"FeatureClientWriteInfo":             54420,
+	"FeatureSettingsSerializedAsStrings": 54429,
+	"FeatureInterServerSecret":           54441,
+	"FeatureOpenTelemetry":               54442,
+	"FeatureXForwardedForInClientInfo":   54443,
+	"FeatureRefererInClientInfo":         54447,
+	"FeatureDistributedDepth":            54448,
+	"FeatureQueryStartTime":              54449,
+	"FeatureProfileEvents":               54451,
+	"FeatureParallelReplicas":            54453,
+	"FeatureCustomSerialization":         54454,
+	"FeatureQuotaKey":                    54458,
+	"FeatureAddendum":                    54458,
+	"FeatureParameters":                  54459,
+	"FeatureServerQueryTimeInProgress":   54460,
+}
+
+// ruleThresholds: the feature table is the protocol's, and In is `revision >= threshold`.
+func ruleThresholds(c *Ctx, p *core.Program, rule string) {
+	c.R.Rule(rule, "table comparison: every proto.Feature constant named in ClickHouse's ProtocolDefines.h has the revision defined there (a field gated one revision early or late is present in one direction of a mixed-version connection and absent in the other, although this library's own encoder and decoder still agree with each other); Feature.In folds to `false, true, true` at threshold-1, threshold, threshold+1")
+	cfg := p.Cfg.Name
+	n := 0
+	names := make([]string, 0, len(protocolDefines))
+	for k := range protocolDefines {
+		names = append(names, k)
+	}
+	sort.Strings(names)
+	for _, nm := range names {
+		got, ok := constOf(p, core.PkgProto, nm)
+		if !ok {
+			continue // a feature the library no longer names is not this rule's business
+		}
+		n++
+		if got == protocolDefines[nm] {
+			c.R.Ok(rule, nm, cfg, "proto/feature.go", sprintf("= %d", got))
+		} else {
+			c.R.Bad(rule, nm, cfg, "proto/feature.go", sprintf("%s = %d, the protocol defines it at revision %d: fields gated on it are written / expected for revisions where the peer does not have them", nm, got, protocolDefines[nm]))
+		}
+	}
+	c.R.Floor(rule, cfg, n, 20)
+	in := p.Method(core.PkgProto, "Feature", "In")
+	if !c.must(p, "proto.Feature.In", in != nil) {
+		return
+	}
+	const k = 54459
+	var got []int64
+	for _, v := range []int64{k - 1, k, k + 1} {
+		r, ok := core.FoldFunc(in, nil, map[int]int64{0: k, 1: v})
+		if !ok {
+			c.R.Unk(rule, "Feature.In", cfg, p.Pos(in.Pos()), "Feature.In is not a foldable comparison of the revision with the threshold")
+			return
+		}
+		got = append(got, r)
+	}
+	if got[0] == 0 && got[1] == 1 && got[2] == 1 {
+		c.R.Ok(rule, "Feature.In", cfg, p.Pos(in.Pos()), "In(v) = v >= threshold")
+	} else {
+		c.R.Bad(rule, "Feature.In", cfg, p.Pos(in.Pos()), sprintf("Feature.In at threshold-1, threshold, threshold+1 = %v, want [0 1 1]: every gated field appears one revision off", got))
+	}
 }
